@@ -422,6 +422,11 @@ pub fn apply_schema(
             new_table.columns.keys().collect::<Vec<&String>>()
         );
 
+        // 0. The primary key is what crsql packs rows by: same columns, same order
+        if !table.pk.iter().eq(new_table.pk.iter()) {
+            return Err(ApplySchemaError::ModifyPrimaryKeys(name.clone()));
+        }
+
         // 1. Check column drops... don't allow unless flag is passed
 
         let dropped_cols = table
